@@ -1,7 +1,7 @@
 //! C05: WIT declarations in WAC mean what WIT means.
 //!
 //! For every generated WIT package inside the shared WIT/WAC subset one case line
-//!     wit <source> <W_wac> <W_wit>
+//!     wit <source> <W_wac> <W_wit> <A | _>
 //! * `W_wac`: the validator's view (independent walk, decode_util.rs) of the component that WAC
 //!   encodes from the text (`Document::parse` -> `resolve` -> `encode`);
 //! * `W_wit`: the same for `wit_component::encode` of the same text as a WIT package.
@@ -49,15 +49,18 @@ fn encode_wit(texts: &[String]) -> Result<(Vec<u8>, Vec<(String, Option<semver::
     Ok((main, deps))
 }
 
-fn encode_wac(text: &str, deps: &[(String, Option<semver::Version>, Vec<u8>)]) -> Result<Vec<u8>, String> {
+/// returns the encoded component and the resolver's `Types` (shared text form)
+fn encode_wac(text: &str, deps: &[(String, Option<semver::Version>, Vec<u8>)]) -> Result<(Vec<u8>, String), String> {
     let doc = wac_parser::Document::parse(text).map_err(|e| format!("parse: {e:?}"))?;
     let mut packages = indexmap::IndexMap::new();
     for (name, version, bytes) in deps {
         packages.insert(wac_types::BorrowedPackageKey::from_name_and_version(name, version.as_ref()), bytes.clone());
     }
     let resolution = doc.resolve(packages).map_err(|e| format!("resolve: {e:?}"))?;
+    let a = tree::ser_types(resolution.graph().types(), 0);
     resolution
         .encode(wac_graph::EncodeOptions { define_components: true, validate: false, processor: None })
+        .map(|b| (b, a))
         .map_err(|e| format!("encode: {e:?}"))
 }
 
@@ -110,7 +113,7 @@ fn run_case(out: &mut Out, case: &Case) {
     }
     let wac_src = wac_text(texts.last().unwrap());
     let deps2 = deps.clone();
-    let wac_bytes = match guarded(move || encode_wac(&wac_src, &deps2)) {
+    let (wac_bytes, wac_types) = match guarded(move || encode_wac(&wac_src, &deps2)) {
         Ok(Ok(b)) => b,
         Ok(Err(e)) => {
             let id = out.case(true, "wac-rejects", &[esc(&case.src), esc(&e)]);
@@ -146,7 +149,9 @@ fn run_case(out: &mut Out, case: &Case) {
     };
     let w_wac = walk_at(&types, 0);
     let w_wit = walk_at(&types, 1);
-    let id = out.case(case.src.len() > 150, "wit", &[esc(&case.src), esc(&w_wac), esc(&w_wit)]);
+    // the resolver's arenas are compared with the elaboration model for single-package sources
+    let a = if texts.len() == 1 { wac_types } else { "_".to_string() };
+    let id = out.case(case.src.len() > 150, "wit", &[esc(&case.src), esc(&w_wac), esc(&w_wit), esc(&a)]);
     // oracle: mutual subtype per exported declaration
     let a = exported_types(&types, 0);
     let b = exported_types(&types, 1);
@@ -294,7 +299,7 @@ fn main() {
             Ok((b, deps)) => {
                 println!("== wit-component ==\n{}", wasmprinter::print_bytes(&b).unwrap());
                 match guarded(|| encode_wac(&wac_text(texts.last().unwrap()), &deps)) {
-                    Ok(Ok(w)) => println!("== wac ==\n{}", wasmprinter::print_bytes(&w).unwrap()),
+                    Ok(Ok((w, _))) => println!("== wac ==\n{}", wasmprinter::print_bytes(&w).unwrap()),
                     Ok(Err(e)) => println!("wac error: {e}"),
                     Err(p) => println!("wac PANIC: {p}"),
                 }
